@@ -12,6 +12,7 @@ from ..facts import walk, strip_targs
 from ..substrate import AnalysisBroken
 from ..cfgutil import must_pass, blocks_calling, call_base, _strip_not
 from .C09 import root_var, same_obj
+from ..cursor import run_cursor
 
 LEVEL = "other"
 
@@ -169,3 +170,18 @@ def run(ctx, rep):
                                "set_unique_id(<original>.unique_id())", control=is_ctl))
     rep.floor("decoder-side creators of portable attributes", n_c, tab["creators_floor"])
     rep.control("PORTABLE-ID", "c10_creator_bad", ctl_fired, "creator that never sets the unique id")
+
+    # ---- CURSOR ------------------------------------------------------------------
+    rep.rules_text.append(
+        "CURSOR: in every function of the attribute-decoding stage (methods of the attributes-decoder classes "
+        "reachable from decode), a loop-carried cursor that indexes a side table inside a loop "
+        "(per-quantized-attribute transforms, per-component minima) advances on every path back to the loop "
+        "header - also on the skip path - so that 'all other attributes are unaffected by the option'")
+    stage = [fn for fn in F.fns.values() if fn.key in dec and
+             any(fn.base.startswith(c + "::") for c in tab["stage_classes"])]
+    ctlf = [fn for fn in F.fns.values() if fn.name.startswith("verif_control::c10_cursor")]
+    n_real, n_nt, ctl = run_cursor(rep, stage + ctlf)
+    rep.floor("CURSOR: loop-carried index uses in the attribute-decoding stage", n_real, tab["cursor_floor"])
+    rep.floor("CURSOR: of which not plain induction variables", n_nt, tab["cursor_nontrivial_floor"])
+    rep.control("CURSOR", "c10_cursor_bad", ctl.get("c10_cursor_bad") is False, "stalling cursor must be reported")
+    rep.control("CURSOR", "c10_cursor_ok (negative)", ctl.get("c10_cursor_ok") is True, "must be discharged")
